@@ -746,9 +746,13 @@ func rendezvousHash(key string, nodes []string) string {
 
 	keyHash := hashString(key)
 
+	// Equal scores (two node names that collide under the hash) are ordered by
+	// name, here and in rendezvousRanked, so that the owner does not depend on
+	// the order of the peer list or on the sort algorithm and every node names
+	// the same one.
 	for _, node := range nodes {
 		hash := hashCombine(keyHash, node)
-		if hash > bestHash {
+		if hash > bestHash || (hash == bestHash && bestNode != "" && node < bestNode) {
 			bestHash = hash
 			bestNode = node
 		}
@@ -776,7 +780,10 @@ func rendezvousRanked(key string, nodes []string) []string {
 	}
 
 	sort.Slice(scores, func(i, j int) bool {
-		return scores[i].score > scores[j].score
+		if scores[i].score != scores[j].score {
+			return scores[i].score > scores[j].score
+		}
+		return scores[i].node < scores[j].node
 	})
 
 	ranked := make([]string, len(scores))
